@@ -158,8 +158,9 @@ func (f *TypedReverseBoltCursor) Next() {
 
 func (f *TypedReverseBoltCursor) Seek(val []byte) {
 	searchVal := PrependFieldType(f.fieldType, val)
-	f.key, _ = f.cursor.Seek(searchVal)
-	if !bytes.Equal(searchVal, f.key) {
-		f.Next()
+	key, _ := f.cursor.Seek(searchVal)
+	if !bytes.Equal(searchVal, key) {
+		key, _ = f.cursor.Prev()
 	}
+	f.key = typedCursorElement(key)
 }
